@@ -385,6 +385,82 @@ pub async fn resumption_probe(versions: PeerVersions, self_signed: bool) -> Resu
 /// C08 over a real TLS server with authorization: the role the policy is asked about is the role
 /// of the certificate, character for character; a request the policy denies changes nothing and
 /// is answered with exception 01
+/// Sessions of one server whose client certificates differ in nothing but the role (the second one
+/// is minted at run time from the first: same subject, same key): every session is judged by the
+/// role of its own certificate, whichever came first and whether or not the other is still open
+pub fn c08_same_subject_phase() -> Stats {
+    let mut st = Stats::default();
+    let minted = match mint_roles("cli_operator", "ca_a", &["observer"], "role-observer") {
+        Ok(n) => n,
+        Err(e) => {
+            st.violation(Violation { signature: "MACHINERY:mint".into(), summary: format!("same-subject certificate: {e}"), replay: json!({}) });
+            return st;
+        }
+    };
+    let minted: &'static str = Box::leak(minted.into_boxed_str());
+    let certs: [(&'static str, &'static str); 2] = [("cli_operator", "operator"), (minted, "observer")];
+    for order in [vec![0usize, 1], vec![1, 0], vec![0, 1, 0], vec![1, 0, 1], vec![0, 1, 1, 0]] {
+        for keep_open in [false, true] {
+            let order2 = order.clone();
+            let r: Result<Vec<(usize, Vec<u8>, Vec<String>)>, String> = rt().block_on(async move {
+                let cell = Cell { min13: false, self_signed: false, authz: true, rodbus_is_server: true, peer: PeerVersions::Both, cert: CertKind::Valid, spawn: false, ctor: 0 };
+                let s = start_tls_server_with_policy(&cell, "ca_a", AddressFilter::Any, "127.0.0.1", 8, PolicySpec::RoleIs("operator".to_string())).await?;
+                let mut open = vec![];
+                let mut out = vec![];
+                for (k, ci) in order2.iter().enumerate() {
+                    let connector = tokio_rustls::TlsConnector::from(peer_client_config(PeerVersions::Both, certs[*ci].0));
+                    let tcp = connect_from("127.0.0.1", s.addr).await.map_err(|e| format!("connect: {e}"))?;
+                    let name = rustls::pki_types::ServerName::try_from("test.com").unwrap();
+                    let mut tls = tokio::time::timeout(STEP_TIMEOUT, connector.connect(name, tcp)).await.map_err(|_| "handshake timed out".to_string())?.map_err(|e| format!("handshake: {e}"))?;
+                    let before = s.app.log.lock().unwrap().len();
+                    let req = mbap_frame(0x0B00 + k as u16, 1, &[6, 0, k as u8, 0x12, 0x34]);
+                    if !write_all(&mut tls, &req).await {
+                        return Err("write failed".to_string());
+                    }
+                    let reply = match read_n(&mut tls, 9, STEP_TIMEOUT).await {
+                        ReadOutcome::Bytes(b) => b,
+                        other => return Err(format!("no reply: {other:?}")),
+                    };
+                    let roles: Vec<String> = s.app.log.lock().unwrap()[before..].iter().filter_map(|c| if let Call::Auth { role, .. } = c { Some(role.clone()) } else { None }).collect();
+                    out.push((*ci, reply, roles));
+                    if keep_open {
+                        open.push(tls);
+                    } else {
+                        let _ = tls.shutdown().await;
+                    }
+                }
+                drop(open);
+                let _ = s.handle.shutdown().await;
+                Ok(out)
+            });
+            st.evaluations += 1;
+            st.traces += 1;
+            st.class("tls-authz:same-subject-other-role");
+            match r {
+                Err(e) => st.violation(Violation { signature: "MACHINERY:tls-authz-cell".into(), summary: format!("same-subject sessions {order:?}: {e}"), replay: json!({}) }),
+                Ok(steps) => {
+                    st.observe(&(order.clone(), keep_open, steps.iter().map(|x| x.1.get(7).copied()).collect::<Vec<_>>()));
+                    for (k, (ci, reply, roles)) in steps.iter().enumerate() {
+                        st.transitions += 1;
+                        let role = certs[*ci].1;
+                        let allow = role == "operator";
+                        let want: Vec<u8> = if allow { vec![0x0B, k as u8, 0, 0, 0, 6, 1, 6, 0] } else { vec![0x0B, k as u8, 0, 0, 0, 3, 1, 0x86, 1] };
+                        if *roles != vec![role.to_string()] || *reply != want {
+                            st.violation(Violation {
+                                signature: format!("tls-authz:session-judged-by-another-role:{}", if allow { "allow" } else { "deny" }),
+                                summary: format!("sessions (roles {:?}, same subject and key, {}): session #{k} has role {role:?}; the authorization handler was asked about {roles:?} and the write was answered {} (expected {})", order.iter().map(|c| certs[*c].1).collect::<Vec<_>>(), if keep_open { "all kept open" } else { "one after the other" }, hex(reply), hex(&want)),
+                                replay: json!({"kind": "c08-tls"}),
+                            });
+                        }
+                    }
+                }
+            }
+        }
+    }
+    cleanup_minted();
+    st
+}
+
 pub fn c08_tls_phase() -> Stats {
     let mut st = Stats::default();
     // the last certificate carries no role at all: whatever the policy, nothing it sends has an effect
@@ -766,6 +842,72 @@ pub fn two_roles_phase() -> Stats {
     st
 }
 
+/// The client dials a host *name* (`HostAddr::dns("localhost")`) while it is configured to expect
+/// the certificate name "test.com": the name that decides is the configured one. Returns
+/// (reached, admitted): `reached` is false when the name did not lead to our listener at all.
+pub async fn dialed_name_case(present: &str) -> Result<(bool, bool), String> {
+    let cfg = TlsClientConfig::full_pki(Some("test.com".to_string()), &cert_path("ca_a"), &cert_path("cli_operator"), &key_path("cli_operator"), None, MinTlsVersion::V1_2).map_err(|e| format!("TlsClientConfig: {e}"))?;
+    let (listener, addr) = listen("127.0.0.1").await;
+    let retry = doubling_retry_strategy(Duration::from_millis(200), Duration::from_millis(200));
+    let (channel, task) = create_tls_client_task_with_options(HostAddr::dns("localhost".to_string(), addr.port()), retry, cfg, None, ClientOptions::default());
+    let join = tokio::spawn(task.run());
+    channel.enable().await.map_err(|_| "enable failed".to_string())?;
+    let ch2 = channel.clone();
+    // requests fail at once while the channel is not connected: keep asking
+    let req = tokio::spawn(async move {
+        loop {
+            let _ = ch2.read_holding_registers(RequestParam::new(UnitId::new(1), Duration::from_secs(2)), AddressRange::try_from(0, 2).unwrap()).await;
+            tokio::time::sleep(Duration::from_millis(20)).await;
+        }
+    });
+    let acceptor = tokio_rustls::TlsAcceptor::from(peer_server_config(PeerVersions::Both, present));
+    let mut reached = false;
+    let mut admitted = false;
+    if let Ok(Ok((tcp, _))) = tokio::time::timeout(Duration::from_secs(3), listener.accept()).await {
+        reached = true;
+        if let Ok(Ok(mut tls)) = tokio::time::timeout(STEP_TIMEOUT, acceptor.accept(tcp)).await {
+            // a Modbus request from the client means that it accepted our certificate
+            if let ReadOutcome::Bytes(_) = read_n(&mut tls, 12, Duration::from_secs(2)).await {
+                admitted = true;
+            }
+        }
+    }
+    req.abort();
+    drop(channel);
+    join.abort();
+    Ok((reached, admitted))
+}
+
+pub fn dialed_name_phase() -> Stats {
+    let mut st = Stats::default();
+    let minted = match mint_san("srv_valid", "ca_a", "localhost", "san-localhost") {
+        Ok(n) => n,
+        Err(e) => {
+            st.violation(Violation { signature: "MACHINERY:mint".into(), summary: format!("SAN localhost: {e}"), replay: json!({}) });
+            return st;
+        }
+    };
+    for (present, want, what) in [(minted.as_str(), false, "a certificate of the configured authority that names only the dialed host (localhost)"), ("srv_valid", true, "the certificate naming test.com")] {
+        st.evaluations += 1;
+        match rt().block_on(dialed_name_case(present)) {
+            Err(e) => st.violation(Violation { signature: "MACHINERY:cell-error".into(), summary: format!("dialed-name case {present}: {e}"), replay: json!({}) }),
+            Ok((false, _)) => st.class("dialed-name:localhost-does-not-lead-here"),
+            Ok((true, admitted)) => {
+                st.class("dialed-name-vs-expected-name");
+                st.observe(&(want, admitted));
+                if admitted != want {
+                    st.violation(Violation {
+                        signature: if admitted { "peer-admitted:client:dialed-name".to_string() } else { "valid-peer-refused:client:dialed-name".to_string() },
+                        summary: format!("client configured to expect \"test.com\", endpoint given as the host name \"localhost\", server presents {what}: admitted={admitted}, expected {want}"),
+                        replay: json!({"kind": "c09-dialed-name"}),
+                    });
+                }
+            }
+        }
+    }
+    st
+}
+
 pub fn check_c09(tier: &str) -> i32 {
     let mut rep = Report::new(
         "C09",
@@ -872,9 +1014,11 @@ pub fn check_c09(tier: &str) -> i32 {
     let st = validity_phase();
     rep.phase("validity periods beginning / ending within two minutes of now", st, json!({}));
     let st = two_roles_phase();
-    cleanup_minted();
     rep.phase("client certificates carrying the role extension twice (minted at run time)", st, json!({"certificates": 3}));
     rep.require_class("two-role-extensions");
+    let st = dialed_name_phase();
+    cleanup_minted();
+    rep.phase("client that dials a host name other than the certificate name it expects", st, json!({"dialed": "localhost", "expected": "test.com"}));
     // session resumption across two differently configured servers of one process
     {
         let mut st = Stats::default();
@@ -931,6 +1075,9 @@ pub fn check_c09(tier: &str) -> i32 {
 }
 
 pub fn replay_c09(v: &serde_json::Value) -> Vec<(String, String)> {
+    if v["kind"] == "c09-dialed-name" {
+        return dialed_name_phase().violations_as_pairs();
+    }
     if v["kind"] == "c09-two-roles" {
         return two_roles_phase().violations_as_pairs();
     }
